@@ -37,5 +37,8 @@ def check(prog: Program, run: Run) -> None:
     isotp.c13_consumers(prog, run)
     run_as(run, "C12.R3", "C13.R1", lambda r: isotp.c12_log_regex(prog, r))
     isotp.c13_typestate(prog, fr, run)
+    # what is reported after a loss or a corrupted length is still made of whole frame payloads
+    # cut at the announced length (the append / truncate / completion shape, shared with C12.R1)
+    run_as(run, "C12.R1", "C13.R2", lambda r: isotp._c12_consecutive(fr, r))
     isotp.c13_seq_error(fr, run)
     run.info("functions", [fr.f.key])
